@@ -1100,7 +1100,7 @@ def evidence(tier, seed, total):
     return {
         'level': LEVEL,
         'coverage': {
-            'rule': '[additions: a commandable analog value whose present value / priority array are modelled (16 slots) and commanded at priorities 1-16 with repeating values; a proprietary property added to ONE instance (Object.add_property) next to a sibling of the same class; property existence taken from the static class declarations, not from the library's run-time tables; a neighbour device offering SubscribeCOV in the same process; watched (monitored) array / list properties; the device object by identifier and by the wildcard instance] Type sweep (enumerated): one instance of EVERY registered standard object type that can be constructed, all its properties of modellable datatypes '
+            'rule': '[additions: a commandable analog value whose present value / priority array are modelled (16 slots) and commanded at priorities 1-16 with repeating values; a proprietary property added to ONE instance (Object.add_property) next to a sibling of the same class; property existence taken from the static class declarations, not from the run-time tables of the library; a neighbour device offering SubscribeCOV in the same process; watched (monitored) array / list properties; the device object by identifier and by the wildcard instance] Type sweep (enumerated): one instance of EVERY registered standard object type that can be constructed, all its properties of modellable datatypes '
                     '(atomic, enumerated, bit string, date/time, object identifier, arrays and lists of those) initialised with seeded values, then ReadPropertyMultiple '
                     'all/required/optional, ReadProperty of every property (array index 0, 1, 99 for arrays) and write/read-back of up to 12 properties. Exploration: a '
                     'device with 2-6 objects from 14 classes (seeded subsets of properties made writable through the documented property-table override and initialised), '
